@@ -514,14 +514,18 @@ package mapping
 //@   ensures [failure-drops-the-map] result1 != nil ==> result0 == emptyValue
 //@   ensures [converted-map-returned] result1 == nil && ret(reflect.MapOf) != ret(reflect.TypeOf) ==> result0 == ret(reflect.MakeMapWithSize) && arg(reflect.MakeMapWithSize, 0) == ret(reflect.MapOf)
 //@   loop 1 invariant calls(reflect.MakeMapWithSize) == 1 && ret(reflect.MapOf) != ret(reflect.TypeOf) && calls(reflect.MapOf) == 1 && calls(reflect.TypeOf) == 1
-//@   loop 1 iteration-ensures [entry-stored-under-its-own-key] calls(SetMapIndex) == 1 && calls(MapIndex) == 1 && arg(SetMapIndex, 1) == arg(MapIndex, 1) && arg(SetMapIndex, 0) == targetValue && arg(MapIndex, 0) == refValue
+//@   loop 1 iteration-ensures [entry-stored-under-its-own-key] calls(SetMapIndex) == 1 && calls(MapIndex) == 1 && arg(SetMapIndex, 0) == targetValue && arg(MapIndex, 0) == refValue
+// SetMapIndex panics unless the key is assignable to the map's key type: the document key (a string) is used as
+// it is only when it is assignable, and otherwise converted to the key type (same kind) - never stored unchecked
+//@   loop 1 iteration-ensures [entry-key-fits-the-key-type] calls(AssignableTo) == 1 && arg(AssignableTo, 0) == keyType && (ret(AssignableTo) ==> arg(SetMapIndex, 1) == arg(MapIndex, 1) && calls(Convert) == 0) && (!ret(AssignableTo) ==> calls(Convert) == 1 && arg(Convert, 0) == arg(MapIndex, 1) && arg(Convert, 1) == keyType && arg(SetMapIndex, 1) == ret(Convert))
+//@   replay mapping_mapkeys
 //@   loop 1 iteration-ensures [list-entry-through-the-slice-filler] dereffedElemKind == 23 ==> calls(u.fillSlice) == 1 && ret(fillSlice) == nil && arg(fillSlice, 1) == elemType && arg(fillSlice, 3) == data
 //@   loop 1 iteration-ensures [object-entry-through-unmarshal] dereffedElemKind == 25 ==> typeis(data, map[string]any) && calls(u.Unmarshal) == 1 && ret(Unmarshal) == nil && arg(Unmarshal, 1) == unbox(data, map[string]any) && arg(Unmarshal, 2) == ret(Interface, 0, 2)
 //@   loop 1 iteration-ensures [map-entry-recursively] dereffedElemKind == 21 ==> typeis(data, map[string]any) && calls(u.generateMap) == 1 && ret(generateMap, 1) == nil && arg(SetMapIndex, 2) == ret(generateMap, 0)
 //@   loop 1 iteration-ensures [bool-only-into-bool] dereffedElemKind != 23 && dereffedElemKind != 25 && dereffedElemKind != 21 && typeis(data, bool) ==> dereffedElemKind == 1
 //@   loop 1 iteration-ensures [string-only-into-string] dereffedElemKind != 23 && dereffedElemKind != 25 && dereffedElemKind != 21 && typeis(data, string) ==> dereffedElemKind == 24
 //@   loop 1 iteration-ensures [number-through-the-checked-store] dereffedElemKind != 23 && dereffedElemKind != 25 && dereffedElemKind != 21 && typeis(data, json.Number) ==> calls(setValue) == 1 && ret(setValue) == nil && arg(setValue, 0) == dereffedElemKind && arg(setValue, 2) == ret(String)
-//@   loop 1 iteration-ensures [other-only-with-equal-kind] dereffedElemKind != 23 && dereffedElemKind != 25 && dereffedElemKind != 21 && !typeis(data, bool) && !typeis(data, string) && !typeis(data, json.Number) ==> calls(Kind) == 1 && ret(Kind) == dereffedElemKind && arg(SetMapIndex, 2) == ret(MapIndex)
+//@   loop 1 iteration-ensures [other-only-with-equal-kind] dereffedElemKind != 23 && dereffedElemKind != 25 && dereffedElemKind != 21 && !typeis(data, bool) && !typeis(data, string) && !typeis(data, json.Number) ==> calls(Kind) >= 1 && ret(Kind, 0, last) == dereffedElemKind && arg(Kind, 0, last) == ret(MapIndex) && arg(SetMapIndex, 2) == ret(MapIndex)
 // ---------------- tag text -> key and options (C05) ----------------
 // doParseKeyAndOptions: the first segment of the tag is the key, every further segment is parsed as one option
 // (in order, against the same options record); the first option error is returned with no key and no options.
